@@ -48,37 +48,38 @@ type TV struct {
 }
 
 type FnVC struct {
-	w           *World
-	e           *Enc
-	fn          *ssa.Function
-	ct          *FuncContract
-	cf          *ContractFile
-	name        string // short name
-	lines       []string
-	vals        map[ssa.Value]Term
-	tuples      map[ssa.Value][]Term
-	blockLit    map[*ssa.BasicBlock]Term
-	memOut      map[*ssa.BasicBlock]*Mem
-	obls        []*Obligation
-	loops       []*Loop
-	loopOf      map[*ssa.BasicBlock]*Loop // header -> loop
-	counters    map[string]int
-	mem0        *Mem
-	params      map[string]TV
-	ghostTy     map[string]types.Type
-	debug       map[*ssa.BasicBlock][]debugBind
-	private     map[*ssa.Alloc]string
-	closures    map[ssa.Value]*ssa.MakeClosure
-	warnings    []string
-	callOrd     map[string]int
-	defers      []*ssa.Defer
-	rangeMap    map[*ssa.Range]string
-	retN        int
-	retLits     []Term
-	trustedUsed map[string]bool
-	curBlock    *ssa.BasicBlock
-	cur         *Mem
-	mode        string // "full" or "safety"
+	w            *World
+	e            *Enc
+	fn           *ssa.Function
+	ct           *FuncContract
+	cf           *ContractFile
+	name         string // short name
+	lines        []string
+	vals         map[ssa.Value]Term
+	tuples       map[ssa.Value][]Term
+	blockLit     map[*ssa.BasicBlock]Term
+	memOut       map[*ssa.BasicBlock]*Mem
+	obls         []*Obligation
+	loops        []*Loop
+	loopOf       map[*ssa.BasicBlock]*Loop // header -> loop
+	counters     map[string]int
+	mem0         *Mem
+	params       map[string]TV
+	ghostTy      map[string]types.Type
+	debug        map[*ssa.BasicBlock][]debugBind
+	private      map[*ssa.Alloc]string
+	closures     map[ssa.Value]*ssa.MakeClosure
+	warnings     []string
+	callOrd      map[string]int
+	defers       []*ssa.Defer
+	rangeMap     map[*ssa.Range]string
+	retN         int
+	retLits      []Term
+	matchedSites map[string]bool
+	trustedUsed  map[string]bool
+	curBlock     *ssa.BasicBlock
+	cur          *Mem
+	mode         string // "full" or "safety"
 }
 
 type debugBind struct {
@@ -204,24 +205,28 @@ func (vc *FnVC) isBackEdge(from, to *ssa.BasicBlock) bool {
 }
 
 func (vc *FnVC) blockOrder() []*ssa.BasicBlock {
-	var order []*ssa.BasicBlock
 	seen := map[*ssa.BasicBlock]bool{}
-	var visit func(b *ssa.BasicBlock)
-	visit = func(b *ssa.BasicBlock) {
-		seen[b] = true
-		for _, s := range b.Succs {
-			if !seen[s] && !vc.isBackEdge(b, s) {
-				visit(s)
+	rpo := func(root *ssa.BasicBlock) []*ssa.BasicBlock {
+		var order []*ssa.BasicBlock
+		var visit func(b *ssa.BasicBlock)
+		visit = func(b *ssa.BasicBlock) {
+			seen[b] = true
+			for _, s := range b.Succs {
+				if !seen[s] && !vc.isBackEdge(b, s) {
+					visit(s)
+				}
 			}
+			order = append(order, b)
 		}
-		order = append(order, b)
+		visit(root)
+		for i, j := 0, len(order)-1; i < j; i, j = i+1, j-1 {
+			order[i], order[j] = order[j], order[i]
+		}
+		return order
 	}
-	visit(vc.fn.Blocks[0])
+	order := rpo(vc.fn.Blocks[0])
 	if vc.fn.Recover != nil && !seen[vc.fn.Recover] {
-		visit(vc.fn.Recover)
-	}
-	for i, j := 0, len(order)-1; i < j; i, j = i+1, j-1 {
-		order[i], order[j] = order[j], order[i]
+		order = append(order, rpo(vc.fn.Recover)...)
 	}
 	return order
 }
@@ -530,6 +535,19 @@ func (vc *FnVC) translate() (err error) {
 		for _, s := range b.Succs {
 			if vc.isBackEdge(b, s) {
 				vc.backEdge(vc.loopOf[s], b)
+			}
+		}
+	}
+	if vc.ct != nil {
+		// every call site a contract names must exist
+		for _, ca := range vc.ct.CallAssert {
+			if !vc.matchedSites["assert "+ca.Callee] {
+				return fmt.Errorf("%s: contract asserts at calls of %q but the function has no such call", vc.qualName(), ca.Callee)
+			}
+		}
+		for _, g := range vc.ct.CallGhost {
+			if !vc.matchedSites["ghost "+g.Callee] {
+				return fmt.Errorf("%s: contract attaches ghost code to calls of %q but the function has no such call", vc.qualName(), g.Callee)
 			}
 		}
 	}
